@@ -325,7 +325,8 @@ def main():
         sys.exit(1)
     # neither held nor violated: some verification condition was left open by both solvers, or the code under
     # contract now uses a construct outside the verified subset (the contract no longer covers that statement)
-    open_funcs = [f for f in funcs if f["status"] == "partial"]
+    # (a function whose refuted obligations are all recorded findings is still undecided where its body left the subset)
+    open_funcs = [f for f in funcs if f["status"] == "partial" or f["outside_subset"] or f["undecided"]]
     if open_funcs:
         for f in open_funcs:
             print("UNDECIDED property=%s function=%s undecided_obligations=%d outside_subset=%s" % (
